@@ -257,7 +257,9 @@ func c05RejectedKept(a *app.App, r *modelRun) string {
 	}
 	for _, cl := range r.s.CallLog {
 		x := a.ExtSym(cl.Sym)
-		if x == nil || x.Size == 0 || len(cl.Out) <= int(x.Size) || cl.Err {
+		// results shorter than 8 bytes are cut-off tags ("sa"): two different calls can return the same one,
+		// so only a full tag (symbol, call index, input digest) identifies the refused result
+		if x == nil || x.Size == 0 || len(cl.Out) <= int(x.Size) || len(cl.Out) < 8 || cl.Err {
 			continue
 		}
 		if r.s.Ca.LastValue == cl.Out {
